@@ -458,9 +458,13 @@ func (g *Gen) applyFuncSpecWith(st *State, fs *FuncSpec, fn *ssa.Function, args 
 		}
 	}
 	ens := fs.Ensures
-	if len(internal) > 0 {
+	if len(internal) > 0 || len(g.W.noAssume) > 0 {
 		ens = nil
+		ckey := strings.TrimPrefix(fs.Pkg, g.W.modPath+"/") + "::" + fn.RelString(fn.Pkg.Pkg) + " :: "
 		for _, c := range fs.Ensures {
+			if g.W.noAssume[ckey+c.ID] {
+				continue // an open finding: this postcondition is known to be false on the pinned tree
+			}
 			if !mentions(c.E, internal) {
 				ens = append(ens, c)
 			}
